@@ -187,8 +187,11 @@ def _mol(cfg, rng):
     from vlib import gen
     name = cfg["mol"]
     if name in gen.MOLS:
-        return gen.make_mol(name, "sto-3g", rng, jitter=0.05)
-    atoms, spin, charge = EXTRA_MOLS[name]
+        atoms, spin, charge = gen.MOLS[name]
+    else:
+        atoms, spin, charge = EXTRA_MOLS[name]
+    # random atom order: element-grouped listings hide per-element / per-atom table mix-ups
+    atoms = [atoms[int(i)] for i in rng.permutation(len(atoms))]
     return gen.make_mol(None, "sto-3g", rng, jitter=0.05, atoms=atoms, spin=spin, charge=charge)
 
 
